@@ -119,6 +119,7 @@ func RunModelT(bin string, sc *Scenario, impl *ImplRun, checkSizes bool, transcr
 		}
 		return "999999"
 	}
+	removedRealm := map[int]bool{}
 	incarnation := map[int]int{} // a realm that is removed and added again starts its id counters anew
 	realmOf := func(recv int) int {
 		if r, ok := joined[recv]; ok {
@@ -146,8 +147,12 @@ func RunModelT(bin string, sc *Scenario, impl *ImplRun, checkSizes bool, transcr
 		if op.Kind == "join" && r.Failed == "" {
 			joined[op.Sess] = op.Realm
 		}
-		if op.Kind == "addrealm" && r.Failed == "" {
+		if op.Kind == "addrealm" && r.Failed == "" && removedRealm[op.Realm] {
 			incarnation[op.Realm]++
+			removedRealm[op.Realm] = false
+		}
+		if op.Kind == "rmrealm" {
+			removedRealm[op.Realm] = true
 		}
 		try := func(oracle int) (map[int][]string, []int, *PubNamer, error) {
 			line := ""
